@@ -8,11 +8,22 @@
      reach d inputs: ancestors reached through lost tokens only
      is_node / sedge (Graph/Proofs.v): nodes / edges of the built token graph (edge p -> t: p was used to make t)
 
-   What is proved is the planning core (which tokens enter the recovery graph, which steps may be selected).
-   NOT proved (names say _partial): that create_graph_mapper copies the graph faithfully into the GraphMapper
-   (compared with the real classes on every run instead), and the engine-level execution counts. *)
+     port_of_token d t nm : token t of the table sits on the port named nm
+     private_port d jp outs : whatever was made from a token of port jp sits on a port named in outs
+     MI port_of m  : the GraphMapper m is consistent: both its graphs are mirror-consistent (C20's WF),
+                     token_availability and token_instances have the same keys, every token listed under a port
+                     is a known token whose port is that one (so it is listed under one port only)
+
+   What is proved is the planning chain build_graph -> create_graph_mapper -> get_step_ids (which tokens enter the
+   recovery graph, which ports the mapper can have, which steps may be selected) for every set-iteration order,
+   and the consistency of the GraphMapper maps under its four mutating operations.
+   NOT proved: that create_graph_mapper copies the graph edge by edge into the GraphMapper, and what
+   _update_token does to the token graph when two tokens are 'equal' (compared with the real classes on every run
+   instead); the engine-level claim is checked on real recovered runs by the harness, not proved. *)
 From Coq Require Import List Bool NArith.
-From SF Require Import Graph.Model Graph.Util Graph.Proofs ProvGraph.Model ProvGraph.Proofs.
+From Coq Require Import Permutation.
+From SF Require Import Graph.Model Graph.Util Graph.Proofs ProvGraph.Model ProvGraph.Proofs ProvGraph.Proofs2
+                       ProvGraph.Proofs3.
 Import ListNotations.
 
 (* every token of the recovery graph is a provenance ancestor of an input of the failed job, reached through
@@ -62,13 +73,66 @@ Qed.
 (* step selection: a step is selected only if ALL its input ports carry tokens of the mapper and one of its
    output ports (not an output port of the failed step) does.
    partial: relating the mapper's ports to the built graph is left to the correspondence. *)
-Theorem C18_minimal_steps_partial : forall m steps ports outs s,
+Theorem C18_get_step_ids_sound : forall m steps ports outs s,
   In s (get_step_ids m steps ports outs) ->
   exists st, In st steps /\ s_id st = s /\
     (forall i, In i (s_in st) -> exists nm, port_name ports i = Some nm /\ mget (m_port_tokens m) nm <> None) /\
     (exists o nm, In o (s_out st) /\ mget (m_port_tokens m) nm <> None /\ ~ In nm outs /\
                   list_min (mgetd (m_name_ids m) nm) = Some o).
 Proof. exact get_step_ids_sound. Qed.
+
+(* FULL STATEMENT for get_step_ids (no restriction to conflict-free graphs is needed for this direction): after
+   build_graph and create_graph_mapper (any set-iteration order), every port of the mapper carries a token of the
+   recovery graph ... *)
+Theorem C18_mapper_ports_are_graph_ports : forall order, (forall l, Permutation (order l) l) ->
+  forall d inputs dag info m,
+  build_graph d inputs = BOk dag info -> create_graph_mapper order dag info = Some (inl m) ->
+  forall nm, mget (m_port_tokens m) nm <> None -> exists t, is_node dag t /\ port_of_token d t nm.
+Proof. exact mapper_port_has_graph_token. Qed.
+
+(* ... hence a selected step has graph tokens on all its input ports and on one of its output ports ... *)
+Theorem C18_selected_step_ports : forall order, (forall l, Permutation (order l) l) ->
+  forall d inputs dag info m,
+  build_graph d inputs = BOk dag info -> create_graph_mapper order dag info = Some (inl m) ->
+  forall steps ports outs s, In s (get_step_ids m steps ports outs) ->
+  exists st, In st steps /\ s_id st = s /\
+    (forall i, In i (s_in st) -> exists nm t, port_name ports i = Some nm /\ is_node dag t /\ port_of_token d t nm) /\
+    (exists o nm t, In o (s_out st) /\ ~ In nm outs /\ is_node dag t /\ port_of_token d t nm).
+Proof. exact selected_step_ports. Qed.
+
+(* ... and a job step (a step with a private job port jp that is not a port of the failed job's inputs) is
+   selected only if it PRODUCED A LOST TOKEN OF THE RECOVERY GRAPH: a token t of the graph that is unavailable
+   and sits on one of the step's output ports.  Jobs whose outputs stayed available are never selected. *)
+Theorem C18_job_step_selected_only_if_output_lost : forall order, (forall l, Permutation (order l) l) ->
+  forall d inputs dag info m,
+  build_graph d inputs = BOk dag info -> create_graph_mapper order dag info = Some (inl m) ->
+  forall steps ports outs s st i jp out_names,
+  In s (get_step_ids m steps ports outs) -> In st steps -> s_id st = s ->
+  (forall st', In st' steps -> s_id st' = s -> st' = st) ->
+  In i (s_in st) -> port_name ports i = Some jp ->
+  private_port d jp out_names ->
+  (forall x, In x inputs -> ~ port_of_token d x jp) ->
+  exists t, is_node dag t /\ lostT d t /\ exists nm, port_of_token d t nm /\ In nm out_names.
+Proof. exact selected_job_step_lost_output. Qed.
+
+(* GraphMapper keeps its port <-> token maps consistent under add / move_token_to_root / replace_token /
+   remove_port, for every set-iteration order (tokens are presented with their own port: op_respects) ... *)
+Theorem C18_mapper_consistent : forall order, (forall l, Permutation (order l) l) ->
+  forall port_of m op m', MI port_of m -> op_respects port_of op -> apply_op order m op = inl m' -> MI port_of m'.
+Proof. exact MI_apply_op. Qed.
+
+Theorem C18_mapper_consistent_initially : forall port_of, MI port_of empty_mapper.
+Proof. exact MI_empty. Qed.
+
+(* ... so is the mapper returned by create_graph_mapper, and a token is listed under one port only *)
+Theorem C18_created_mapper_consistent : forall order, (forall l, Permutation (order l) l) ->
+  forall dag info m, WF dag -> create_graph_mapper order dag info = Some (inl m) ->
+  MI (fun t => match aget info t with Some pi => i_port pi | None => 0%N end) m.
+Proof. exact MI_create_graph_mapper. Qed.
+
+Theorem C18_token_in_one_port : forall port_of m p1 p2 t, MI port_of m ->
+  In t (mgetd (m_port_tokens m) p1) -> In t (mgetd (m_port_tokens m) p2) -> p1 = p2.
+Proof. exact MI_one_port. Qed.
 
 (* ---- non-vacuity ---- *)
 (* 1: source (available); 2: job token of job 7 (made from 1); 3: output of job 7, LOST (made from 1, 2);
@@ -114,9 +178,34 @@ Example C18_ex_steps :
   end.
 Proof. vm_compute. reflexivity. Qed.
 
+(* the hypotheses of C18_job_step_selected_only_if_output_lost are met: step 11 (job 7) has the private job port 2,
+   everything made from a token of port 2 sits on port 3, and no input of the failed job sits on port 2 *)
+Example C18_ex_private : private_port ex_db 2%N [3%N].
+Proof.
+  intros t p rt rp Ht Hp Hq Hport. apply find_tok_In in Ht. simpl in Ht.
+  repeat (destruct Ht as [<- |Ht];
+          [simpl in Hp;
+           repeat (destruct Hp as [<- |Hp];
+                   [vm_compute in Hq; injection Hq as <-; simpl in Hport; try discriminate Hport; simpl; auto|]);
+           try destruct Hp|]).
+  destruct Ht.
+Qed.
+Example C18_ex_inputs_not_on_job_port : forall x, In x [3; 4; 5]%N -> ~ port_of_token ex_db x 2%N.
+Proof.
+  intros x Hx [r [A B]]. simpl in Hx.
+  destruct Hx as [<- |[<- |[<- |[]]]]; vm_compute in A; injection A as <-; discriminate B.
+Qed.
+
 Print Assumptions C18_ancestors.
 Print Assumptions C18_stops_at_available.
 Print Assumptions C18_only_producers_of_lost.
 Print Assumptions C18_soft_failure.
 Print Assumptions C18_graph_consistent.
-Print Assumptions C18_minimal_steps_partial.
+Print Assumptions C18_get_step_ids_sound.
+Print Assumptions C18_mapper_ports_are_graph_ports.
+Print Assumptions C18_selected_step_ports.
+Print Assumptions C18_job_step_selected_only_if_output_lost.
+Print Assumptions C18_mapper_consistent.
+Print Assumptions C18_mapper_consistent_initially.
+Print Assumptions C18_created_mapper_consistent.
+Print Assumptions C18_token_in_one_port.
